@@ -65,16 +65,53 @@ def check(run, prog, tier):
                           "(exhaustive over 15 equality patterns)", minimum=5)
     d = run.rule("C01-D", "every theory wired into get_RelaxationTensor has an obligation; attributes read "
                           "by the constructors exist", minimum=7)
-    rule_A(run, prog)
-    rule_B(run, prog)
-    rule_C(run, prog)
-    rule_D(run, prog)
+    # the structural rules run first: what they report stands when a later index-algebra rule cannot interpret a
+    # changed construct
     run.rule("C01-E", "secularization is available in the operator form too: every secularize implementation converts to the "
                       "tensor form before it looks at the data (none refuses, none reads data that do not exist yet)", minimum=3)
     rule_E(run, prog)
     run.rule("C01-F", "a tensor assembled from parts that can be cut off in time does not assume the parts to have its own "
                       "number of time points", minimum=1)
     rule_F(run, prog)
+    run.rule("C01-G", "a tensor that is completed incrementally (updateStructure subtracts from what is stored) is calculated from "
+                      "freshly zeroed data on every calculation", minimum=4)
+    rule_G(run, prog)
+    rule_A(run, prog)
+    rule_B(run, prog)
+    rule_C(run, prog)
+    rule_D(run, prog)
+
+
+def rule_G(run, prog):
+    """updateStructure() builds the depopulation elements as R[n,n,n,n] -= trace(R[:,:,n,n]) - R[n,n,n,n] (and the dephasing
+    elements from them): it completes rates that were just stored, starting from zeros elsewhere.  A method that stores
+    rates and then calls it - initialize() of the Foerster-type tensors - must allocate self.data anew in the same method
+    before the stores; with the allocation elsewhere (the constructor) a second initialize() starts from the completed
+    tensor of the first and the trace identity sum_a R[a,a,c,d] = 0 is lost."""
+    from ..loader import parents_map
+    rid = "C01-G"
+    n = 0
+    for mod in prog.modules.values():
+        if not mod.name.startswith("quantarhei.qm.liouvillespace"):
+            continue
+        for c in mod.classes.values():
+            for fn in c.methods.values():
+                calls = [x for x in walk_no_nested(fn.node) if isinstance(x, ast.Call) and norm(x.func) == "self.updateStructure"]
+                if not calls:
+                    continue
+                n += 1
+                prog.consulted.add(fn.relpath)
+                allocs = [st for st in walk_no_nested(fn.node) if isinstance(st, ast.Assign)
+                          and any(norm(t_) in ("self.data", "self._data") for t_ in st.targets)
+                          and isinstance(st.value, ast.Call) and call_name(st.value) in ("zeros", "zeros_like")]
+                ok = bool(allocs) and min(a.lineno for a in allocs) < min(c_.lineno for c_ in calls)
+                run.obligation(rid, fn.short, ok, key="fresh-before-completion",
+                               message="%s stores rates and completes them with updateStructure(), which subtracts from what is stored, "
+                                       "without allocating self.data anew in the same method: calculated a second time (initialize() on "
+                                       "a reused tensor) it starts from the completed tensor of the first calculation and the tensor no "
+                                       "longer preserves the trace" % fn.short, loc=fn.loc(calls[0]))
+    if n < 4:
+        raise AnalysisError("only %d callers of updateStructure found (4 confirmed)" % n)
 
 
 def rule_F(run, prog):
